@@ -181,3 +181,49 @@ for v in ["c01", "c02", "c02_l8", "c01_lenlow", "c01_lenhigh", "c01_ans", "c03",
     reg_op(OPS_B, "getxattr_h", v, "structure + 4 (8) name bytes; value of 0/3/8 symbolic bytes (length concrete per instance) or a count; " + NDESC, quick=v in ("c02", "c03"))
 for v in ["c01", "c02", "c02_l8", "c01_lenlow", "c01_lenhigh", "c01_ans", "c03", "c01_tiny", "c01_devfail"]:
     reg_op(OPS_B, "setxattr_h", v, "structure + 5 (8) bytes of name NUL value (every split); " + NDESC, quick=v in ("c01", "c02"))
+
+OPS_C = "harness/model/srvsync__ops_c.rs"
+C_FAM = {
+ "read_h": ["c01", "c02", "c03", "c03_len3", "c01_trunc", "c01_nospace", "c01_hdronly", "c01_tiny", "c01_devfail"],
+ "write_h": ["c01", "c02", "c02_nopayload", "c02_p3", "c03", "c01_trunc", "c01_nospace", "c01_tiny", "c01_devfail"],
+ "readdir_h": ["c01", "c01_symsize_empty", "c02", "c03", "c03_sz63", "c03_sz31", "c03_sz0", "c03_name8", "c03_name1_n3", "c03_name0", "c03_empty", "c01_empty",
+               "c01_trunc", "c01_oversize", "c01_tiny", "c01_hdronly", "c01_devfail"],
+ "readdirplus_h": ["c01", "c02", "c03", "c03_sz159", "c03_two", "c03_empty", "c01_devfail"],
+ "dirent_step_h": ["c03_k0_n0", "c03_k0_n1", "c03_k1_n3", "c03_k2_n7", "c03_k1_n8", "c03_plus_k0_n3", "c03_plus_k1_n8", "c03_plus_k2_n1"],
+ "ioctl_h": ["c01", "c02", "c02_noin", "c03", "c03_nodata", "c01_insize_over", "c01_insize_max", "c01_nospace", "c01_devfail"],
+ "batch_forget_h": ["c01", "c01_e0", "c02", "c02_e1"],
+}
+C_DESC = {
+ "read_h": "read_in bytes symbolic; filesystem produces 8 (c03_len3: 3) symbolic bytes if the client asked for at least that many, through the real split-writer path",
+ "write_h": "write_in bytes and 8/3/0 payload bytes symbolic; payload read by the filesystem through ZeroCopyReader; returned count symbolic (u32)",
+ "readdir_h": "read_in bytes symbolic (size, offset, fh); 0..3 entries offered with names of 0/1/3/8 symbolic bytes, ino/off/type symbolic; entry count, name length and requested size concrete per instance (boundary sizes; all sizes are covered per step by dirent_step_h); entries combined with a success answer, the symbolic error answer with an empty listing (c03_empty/c01_empty)",
+ "readdirplus_h": "as readdir with a fully symbolic Entry per dirent; 1-2 entries",
+ "ioctl_h": "ioctl_in bytes symbolic except in_size (enumerated: exact, 0, present+1, u32::MAX); 4 input and 0/4 output bytes symbolic",
+ "dirent_step_h": "add_dirent as ONE step from a cursor holding 0/1/2 whole entries: limit `max` symbolic over all u32, name bytes/ino/off/type and the Entry symbolic; name length 0/1/3/7/8 concrete",
+ "batch_forget_h": "count field symbolic over all u32 (C01) with 0/2 records present; 1/3 fully symbolic records (C02)",
+}
+QUICK_C = {("read_h", "c01"), ("read_h", "c02"), ("read_h", "c03"), ("write_h", "c02"), ("write_h", "c03"), ("readdir_h", "c01"), ("readdir_h", "c03"),
+           ("readdirplus_h", "c03"), ("readdir_h", "c03_empty"), ("dirent_step_h", "c03_k1_n3"), ("dirent_step_h", "c03_plus_k1_n8"), ("readdir_h", "c03_sz63"), ("ioctl_h", "c01_insize_max"), ("batch_forget_h", "c01"), ("batch_forget_h", "c02"), ("readdir_h", "c01_tiny")}
+for mod, vs in C_FAM.items():
+    for v in vs:
+        reg_op(OPS_C, mod, v, C_DESC[mod], quick=(mod, v) in QUICK_C, timeout=600)
+
+DISP = "harness/model/srvsync__dispatch.rs"
+DISP_OPS = """lookup forget getattr setattr readlink symlink mknod mkdir unlink rmdir rename link open read write statfs release
+fsync setxattr getxattr listxattr removexattr flush init opendir readdir releasedir fsyncdir getlk setlk setlkw access create
+interrupt bmap destroy ioctl poll batch_forget fallocate readdirplus rename2 lseek notify_reply
+op0 op7 op19 op47 op48 op49 op50 op_bswap op_max""".split()
+QUICK_D = {("setlkw", "c02"), ("forget", "c01_oversize"), ("op19", "c01"), ("getattr", "c01"), ("rename2", "c02"), ("batch_forget", "c01_oversize"),
+           ("create", "c01_oversize")}
+DISP_FUNCS = ["Server::handle_message (header decode, remap_ctx_ids, oversize rule, 47-arm dispatch)", "SrvContext::new", "Context::from(&InHeader)",
+              "the dispatched handler on a minimal body", "reply_ok/do_reply_error"]
+for op in DISP_OPS:
+    for v in ("c01", "c02", "c01_oversize"):
+        reg(DISP, "%s::%s" % (op, v), [PROP_OF[v[:3]]], tier="quick" if (op, v) in QUICK_D else "thorough", flavour="model",
+            timeout=900, support=MSUP, cost=5, mem=14,
+            what="handle_message dispatch of opcode %s (%s)" % (op, {"c01": "reply rule", "c02": "operation, caller ids, node id, id translation", "c01_oversize": "in_header.len beyond 1 MiB + 4 KiB"}[v]),
+            bounds="opcode concrete; unique, nodeid, uid, gid, pid, padding symbolic; in_header.len symbolic for body-less opcodes, exact otherwise, or oversize; body = minimal well-formed constant",
+            functions=DISP_FUNCS, stubs=SRV_STUBS + ["CStr::from_bytes_with_nul -> naive first-NUL loop"], role="dispatch:%s:%s" % (op, v))
+for v in ("c01_len0", "c01_len39"):
+    reg(DISP, "short::" + v, ["C01"], tier="quick" if v.endswith("39") else "thorough", flavour="model", timeout=900, support=MSUP, cost=5, mem=14,
+        what="request shorter than the in-header", bounds="all bytes symbolic", functions=DISP_FUNCS, stubs=SRV_STUBS, role="dispatch:short")
